@@ -20,6 +20,8 @@ def dispatch (mode : String) : Option (List String → Verdict) :=
   | "C04" => some SockModel.Drive.C04.runCaseC04
   | "C05" => some SockModel.Drive.C04.runCaseC05
   | "C08" => some SockModel.Drive.C04.runCaseC08
+  | "C14" => some SockModel.Drive.C14.runCase
+  | "C17" => some SockModel.Drive.C17.runCase
   | "C06legacy" => some SockModel.Drive.C06.runCaseLegacy
   | "C13" => some SockModel.Drive.C13.runCase
   | "C11" => some SockModel.Drive.C11.runCase
